@@ -1368,7 +1368,7 @@ PROPS = {
     "C03": {"families": ["env", "env2", "faults", "conc", "real"], "title": "launch fidelity: argv, environment, working directory, program resolution"},
     "C12": {"families": ["env", "env2", "faults", "conc", "threads", "real"], "title": "start leaves the caller untouched and gives the child a clean signal state"},
     "C10": {"families": ["wiring", "restart", "conc", "real"], "title": "each standard stream is connected exactly where the options say"},
-    "C11": {"families": ["wiring", "env2", "conc", "real"], "title": "nothing else is inherited"},
+    "C11": {"families": ["wiring", "env", "env2", "conc", "real"], "title": "nothing else is inherited"},
     "C13": {"families": ["options", "optprod", "restart", "threads"], "title": "options rejected up front, accepted as documented"},
     "C04": {"families": ["faults", "env", "env2", "wiring", "restart", "conc"], "title": "start is all-or-nothing and reports the real cause"},
     "C05": {"families": ["faults", "anyfault", "wiring", "env", "life"], "title": "no leak, no foreign or double close"},
@@ -1444,6 +1444,8 @@ def conclude(prop, tier, results, known, outdir, t0):
                 own |= {"C04"}   # the scenario in which one of the concurrent starts must fail with "no such program" and the other must run its own
             if d.get("kind") == "early" and d.get("fn") in ("wait", "stop") and isinstance(d.get("obs"), dict) and isinstance(d["obs"].get("r"), int) and d["obs"]["r"] >= 0:
                 own |= {"C01"}   # an exit status was reported while the child had not ended
+            if res["family"] == "env" and isinstance(d.get("script"), list) and d["script"] and isinstance(d["script"][0], dict) and d["script"][0].get("limit") == -1:
+                own |= {"C11"}   # the refusal to start under an unlimited descriptor table exists because the child could not sweep it
             if res["family"] in ("env", "env2") and "r" in (d.get("keys") or []) and isinstance(d.get("obs"), dict) and (d["obs"].get("r") == -2 or (isinstance(d.get("exp"), dict) and d["exp"].get("r") == -2)):
                 own |= {"C03"}   # the requested program was not found where the contract says it is: program resolution
             if "INFRA" in own:
